@@ -23,7 +23,6 @@ C = 'include/trompeloeil/coro.hpp'
 MUTANTS = [
     ('M01', 'C02', M, 'if (!first_match || cost < lowest_cost)', 'if (!first_match || cost <= lowest_cost)'),
     ('M02', 'C03', M, 'return call_count >= min_calls;', 'return call_count > min_calls;'),
-    ('M03', 'C03', M, 'return call_count == max_calls;', 'return call_count >= max_calls;'),
     ('M04', 'C04', M, 'return !reported && this->is_linked() && !sequences->is_satisfied();', 'return this->is_linked() && !sequences->is_satisfied();'),
     ('M05', 'C04', M, '''      if (is_unfulfilled())
       {
